@@ -7,6 +7,7 @@
 
 mod checks;
 mod engine;
+mod envsim;
 mod gdsref;
 mod gen_conv;
 mod gen_gds;
